@@ -262,6 +262,7 @@ C02_UNITS = [
     pkunit("thread2", parker_co=False, kind="blocker", rounds=["park", "tpark"], unparkers=2, unparks_each=1, n=200),
 ]
 PROPS["C02"] = dict(assumptions=["run queues deliver every scheduled coroutine (C01, C03, C04); timer contract (C08)"], units=C02_UNITS)
+# (registered below, once C15's units exist: a park must not return a result left behind by an earlier occupant of the stack)
 
 # ---------------------------------------------------------------------------------------------
 # C15: coroutine-local storage; nothing inherited through the stack pool
@@ -292,6 +293,7 @@ C15_UNITS = [
     clsunit("cls_many", [ca("a1", rounds=3), ca("a2", rounds=3), ca("a3", rounds=1), ca("a4", rounds=1, end="panic"), ca("t1", co=False, rounds=2)], ["a1"]),
 ]
 PROPS["C15"] = dict(assumptions=["the generator crate gives each generator its own stack and local-data pointer (trusted)"], units=C15_UNITS)
+PROPS["C02"]["units"] += [dict(u, name="stale_result_" + u["name"]) for u in C15_UNITS if u["name"] in ("reuse_park_cancel", "reuse_sleep_cancel", "reuse_select_cancel")]
 
 # ---------------------------------------------------------------------------------------------
 # C13: a panic stays in its coroutine; poisoning follows std
@@ -459,6 +461,15 @@ def manyunit(name, workers, n=40, runs=40):
 C01_UNITS = [
     dict(name="join_spec", tlc=[("spec/l1/Join.tla", "spec/l1/MCJoin.cfg")]),
     dict(name="sched_spec", tlc=[("spec/l1/MCSched.tla", "spec/l1/MCSched.cfg")]),
+    # the global run queue hand-off: the two protections (read-then-collect, re-collect when empty) may each be
+    # dropped alone, not both (first config: both dropped, counter-example expected)
+    dict(name="globalq_spec", tlc=[("spec/l1/GlobalQ.tla", "spec/l1/MCGlobalQ_M.cfg"), ("spec/l1/GlobalQ.tla", "spec/l1/MCGlobalQ.cfg"),
+                                   ("spec/l1/GlobalQ.tla", "spec/l1/MCGlobalQ_swap.cfg"), ("spec/l1/GlobalQ.tla", "spec/l1/MCGlobalQ_norecollect.cfg")],
+         tlc_expect_error="NoStranded is violated"),
+    dict(name="gq_handoff", scenario="gq", params=dict(workers=8, spawners=2, each=2, worker=2),
+         quick=dict(explore=dict(n=300), dfs=dict(max=300, pb=2)), thorough=dict(explore=dict(n=3000), dfs=dict(max=3000, pb=3))),
+    dict(name="gq_handoff3", scenario="gq", params=dict(workers=8, spawners=3, each=1, worker=5),
+         quick=dict(explore=dict(n=200), dfs=dict(max=200, pb=2)), thorough=dict(explore=dict(n=2000), dfs=dict(max=2000, pb=3))),
     spunit("ret_thread", end="ret", **{"from": "thread"}, yields=2, polls=2, q_waits=True),
     spunit("ret_co", end="ret", **{"from": "co"}, yields=2, polls=3, q_waits=False),
     spunit("panic_thread", end="panic", **{"from": "thread"}, yields=1, polls=2, q_waits=True),
